@@ -1070,7 +1070,8 @@ fn witnesses() -> Vec<(SV, O)> {
 fn generate(a: &Args, wrappers: bool) -> i32 {
     let prop: &'static str = if wrappers { "C20" } else { "C13" };
     let mut rng = Rng::new(a.seed ^ if wrappers { 0x2020 } else { 0x1313 });
-    let mut cx = Ctx { sink: Sink::new(&a.out, "emit"), prop, oracle: vec![], per_id: BTreeMap::new(), texts: Default::default(), distinct: Default::default(), erased: Default::default(), minimal_seen: Default::default(), per_id_records: BTreeMap::new() };
+    let fname: &'static str = if wrappers { "emit_wrappers" } else { "emit" };
+    let mut cx = Ctx { sink: Sink::new(&a.out, fname), prop, oracle: vec![], per_id: BTreeMap::new(), texts: Default::default(), distinct: Default::default(), erased: Default::default(), minimal_seen: Default::default(), per_id_records: BTreeMap::new() };
     let grid = O::grid();
     if wrappers { for (v, o) in witnesses() { cx.case("witness", &v, &o); } }
     // exhaustive small trees
@@ -1110,10 +1111,10 @@ fn generate(a: &Args, wrappers: bool) -> i32 {
     // invalid option set
     cx.case("invalid_options", &SV::Int(1), &O { indent: 0, ..O::default() });
     let nt = cx.sink.stats.get("distinct_nontrivial").copied().unwrap_or(0);
-    let mut f = std::fs::File::create(format!("{}/emit.oracle.jsonl", a.out)).unwrap();
+    let mut f = std::fs::File::create(format!("{}/{}.oracle.jsonl", a.out, fname)).unwrap();
     use std::io::Write;
     for o in &cx.oracle { writeln!(f, "{}", serde_json::to_string(o).unwrap()).unwrap(); }
-    cx.sink.finish(&a.out, "emit", serde_json::json!({
+    cx.sink.finish(&a.out, fname, serde_json::json!({
         "distinct_nontrivial": nt,
         "oracle_failures_by_id": cx.per_id,
         "rule": format!("{prop}: value trees of the Serde data model ({}) serialized by a run-time `Serialize` impl that issues the derive calls: exhaustive over all trees with <= {maxn} nodes (16 leaf kinds incl. empty containers, 9{} unary and 7 binary constructors) x the 16-vector option grid (indent 1-4, compact_list_indent, empty_as_braces, quote_all, yaml_12, tagged_enums, prefer_block_scalars), a sibling-interaction family (19 parent shapes x representative children squared), random trees up to depth 5 under random option vectors (indent 1-10, fold parameters); every emitted text is compared byte for byte with the Lean emitter model (`emit ser`), every distinct text is read by the Lean reference reader and by the real parser (`emit read`), and the implementation-only oracle checks {}. Non-trivial = distinct value tree with more than one node.",
